@@ -9,6 +9,7 @@ import (
 	"sort"
 	"strings"
 	"sync"
+	"time"
 )
 
 type FuncReport struct {
@@ -107,7 +108,9 @@ func (e *Engine) VerifyFunc(q string, c *Contract, caseFilter func(label string)
 			defer func() { <-sem }()
 			x := e.newExec(q, c)
 			x.caseLabel = sc.label
-			func() {
+			done := make(chan struct{})
+			go func() {
+				defer close(done)
 				defer func() {
 					if r := recover(); r != nil {
 						x.fail("engine panic: %v", r)
@@ -115,6 +118,15 @@ func (e *Engine) VerifyFunc(q string, c *Contract, caseFilter func(label string)
 				}()
 				x.runFunc(fd, c, sc, ci == 0)
 			}()
+			select {
+			case <-done:
+			case <-time.After(90 * time.Second):
+				// generation budget exceeded: engine limit (the goroutine is abandoned)
+				y := e.newExec(q, c)
+				y.fail("generation exceeded 90s (path explosion)")
+				outs[ci] = &caseOut{nil, y}
+				return
+			}
 			if x.failed == nil {
 				x.finishObligations()
 			}
@@ -344,6 +356,21 @@ func (x *Exec) runFunc(fd *ast.FuncDecl, c *Contract, sc splitCase, first bool) 
 			g := x.evalClause(es, en, endPos)
 			x.skolem = false
 			x.oblige(es, "post", en.Name, g, fd.Pos(), en.Props)
+		}
+		// type invariants of objects written by this function
+		for _, tp := range x.touched {
+			d := x.eng.cf.Preds[tp.pred]
+			if d == nil || len(d.Params) != 1 {
+				x.fail("typeinv predicate %s must take one parameter", tp.pred)
+				break
+			}
+			es := exit.clone()
+			es.names[d.Params[0].Name] = scalarV(types.NewPointer(tp.typ), tp.ptr)
+			x.spec++
+			x.specPos = endPos
+			g := x.evalCond(es, d.Body)
+			x.spec--
+			x.oblige(es, "typeinv", "typeinv."+tp.pred, x.b.Implies(tp.when, g), fd.Pos(), nil)
 		}
 		// frame: heap arrays not in modifies are unchanged
 		if c.Modifies != nil || c.Pure {
@@ -647,8 +674,8 @@ func (e *Engine) verifyLemma(q string, c *Contract, rep *FuncReport) ([]*Obligat
 	return all, rep
 }
 
-// guardAccess: guarded-by discipline (ghost lock layer); no-op until the
-// contract file declares guards.
+// guardAccess: guarded-by discipline, write-tracking ghosts and type
+// invariants, driven by the declarations of the contract file.
 func (x *Exec) guardAccess(st *State, structT types.Type, field string, ptr *Term, at ast.Node, write bool) {
 	if x.noGuard > 0 || x.spec > 0 || x.noSafety > 0 {
 		return
@@ -656,6 +683,67 @@ func (x *Exec) guardAccess(st *State, structT types.Type, field string, ptr *Ter
 	if x.guardHook != nil {
 		x.guardHook(st, structT, field, ptr, at, write)
 	}
+	cf := x.eng.cf
+	sn := structName(structT)
+	c := x.eng.cf.Contracts[x.frame().qual]
+	if c == nil {
+		c = x.contract
+	}
+	if c != nil && c.GuardsOn {
+		for _, g := range cf.Guards {
+			if !g.matches(sn, field) {
+				continue
+			}
+			gv := x.ghostGlobal(st, g.Ghost, cf.Ghosts[g.Ghost])
+			x.guardCount++
+			txt := ""
+			if at != nil {
+				txt = x.eng.srcText(at)
+			}
+			kind := "read"
+			if write {
+				kind = "write"
+			}
+			var pos token.Pos
+			if at != nil {
+				pos = at.Pos()
+			}
+			x.oblige(st, "guard", fmt.Sprintf("guard.%s(%s.%s @ %s)", kind, sn, field, txt), gv.scalar(), pos, nil)
+			break
+		}
+	}
+	if write && x.isImmutableKey(sn+"."+field) {
+		x.oblige(st, "safety", fmt.Sprintf("safety.immutable-write(%s.%s)", sn, field), x.b.False(), token.NoPos, nil)
+	}
+	if write {
+		for _, g := range cf.OnWrite {
+			if g.matches(sn, field) {
+				t := x.eng.typeByName(cf.Ghosts[g.Ghost])
+				x.setGhostGlobal(st, g.Ghost, scalarV(t, x.b.True()))
+			}
+		}
+		for _, g := range cf.TypeInvs {
+			if g.Pattern == sn {
+				dup := false
+				for i, tp := range x.touched {
+					if tp.ptr == ptr && tp.pred == g.Ghost {
+						dup = true
+						x.touched[i].when = x.b.Or(tp.when, x.b.And(st.pc...))
+					}
+				}
+				if !dup {
+					x.touched = append(x.touched, touchedPtr{ptr, structT, g.Ghost, x.b.And(st.pc...)})
+				}
+			}
+		}
+	}
+}
+
+type touchedPtr struct {
+	ptr  *Term
+	typ  types.Type
+	pred string
+	when *Term // path condition at the first write
 }
 
 func clauseUsesFresh(c *Contract, cl *Clause) bool {
